@@ -187,7 +187,7 @@ def effect (i : MInfo) (p c : Addr) (call : Call) (w : World) : Except Err World
     let out := w1.tokensFor r
     let w2 := { w1 with vTok := w1.vTok - out, vShr := w1.vShr - r }
     .ok (w2.setRaw p (w1.raw p - r))
-  | .withdraw => if w.shares p = 0 then .error .method else .ok (claim w p)   -- no delegation: nothing to withdraw
+  | .withdraw => if w.raw p = 0 then .error .method else .ok (claim w p)   -- no delegation (not even a fraction of a share): nothing to withdraw
   | .approve sp s => .ok { w with allow := upd2 w.allow p sp s }
   | .transferShares to s => moveShares w p to s
   | .transferFromShares _ to s =>
